@@ -1907,8 +1907,11 @@ func (k *Kernel) handleReplayedHeader(
 		))
 	}
 
-	if proof.Round > s.Voting.Round {
+	for proof.Round > s.Voting.Round {
 		// Later round than we expected.
+		// Each jump moves the voting view forward by one round,
+		// so keep jumping until the voting view is the replayed round;
+		// the replayed precommits are only valid for that round.
 		if err := k.jumpVotingRound(ctx, s, proof.Round); err != nil {
 			return tmelink.ReplayedHeaderInternalError{
 				Err: fmt.Errorf(
